@@ -233,7 +233,9 @@ def _update(
     cm_shape = torch.Size([num_classes, num_classes])
 
     # Each prediction creates an entry at the position (true, pred)
-    sparse_cm = torch.sparse_coo_tensor(coordinates, torch.ones_like(target), cm_shape)
+    sparse_cm = torch.sparse_coo_tensor(
+        coordinates, torch.ones_like(target, dtype=torch.long), cm_shape
+    )
 
     return sparse_cm.to_dense()
 
